@@ -5,7 +5,7 @@ trace."""
 import json
 import time
 
-from harness.common import Prop, canon, run_driver, case_hash, scale
+from harness.common import Prop, canon, run_driver, case_hash, scale, code_projection
 from harness import gen_build as G
 from harness import cxx_run as X
 
@@ -283,7 +283,7 @@ def mc_wrapper_stream(rng, n):
         _, itf = X.port_events(info, mc['port'])
         rel = next(e for e in itf['events'] if e['name'] == mc['release'])
         valued += rel['_reply']['kind'] != 'void'
-        if canon(impl) != canon(m.get('model')):
+        if canon(code_projection(impl)) != canon(code_projection(m.get('model'))):
             disagreements.append({'case': s, 'impl': impl, 'model': m.get('model'), 'failed': [], 'noshrink': True})
         if isinstance(impl, dict) and 'ok' in impl:
             cc = next(f for f in impl['ok']['files'] if f['name'].endswith('.cc'))['contents']
@@ -350,7 +350,7 @@ def text_routing_stream(rng, n, mc_fraction, clause_filter=None):
             rec['impl'] = impl
             failures.append(rec)
             focus.append(c)
-        elif canon(impl) != canon(o.get('model')) or not o.get('parser_ok', True):
+        elif canon(code_projection(impl)) != canon(code_projection(o.get('model'))) or not o.get('parser_ok', True):
             rec['impl'] = impl
             rec['model'] = o.get('model')
             disagreements.append(rec)
